@@ -83,23 +83,39 @@ Definition do_remove (n : Z) (st : state) : state :=
   end.
 
 (* add(ms, callback, name, **kwargs).  Every add-like call consumes one id (the test harness creates one closure
-   per call); name < 0 stands for name=None: a fresh uuid, written -1-u here. *)
-Definition do_add (ms n0 cb : Z) (kw : kwargs) (st : state) : state :=
+   per call).  NAMES: a name is a Z.  n0 = -1 stands for name=None: add() generates a name (uuid4) and RETURNS it; the
+   generated name of the add with id u is written [gen_name u] = -2-u.  Names >= 0 are the client's own strings.  A
+   client may keep a returned generated name and pass it to any operation later (stale or not): names <= -2 in
+   operations.  A generated name that has not been returned yet cannot be known to a client (a uuid4 cannot be
+   guessed): an add-like call with such a name is not a possible call and does nothing here ([usable]); remove /
+   check / run_now on it are no-ops anyway. *)
+Definition is_anon (n0 : Z) : bool := n0 =? -1.
+Definition gen_name (u : Z) : Z := -2 - u.
+Definition known (st : state) (n0 : Z) : bool := (0 <=? n0) || ((n0 <? -1) && (-2 - n0 <? next st)).
+Definition usable (st : state) (n0 : Z) : bool := is_anon n0 || known st n0.
+(* what add(.., name=n0) returns *)
+Definition add_ret (n0 : Z) (st : state) : Z := if is_anon n0 then gen_name (next st) else n0.
+
+Definition add_named (ms n cb : Z) (kw : kwargs) (st : state) : state :=
   let u := next st in
-  let n := if n0 <? 0 then -1 - u else n0 in
   let st1 := do_remove n (mkS (now st) (u + 1) (dict st) (timers st) (log st)) in
   mkS (now st1) (next st1)
       (dict st1 ++ [mkE n u cb kw])
       (timers st1 ++ [mkT u (now st + 1000 * ms) n cb kw])
       (EAdd (now st) u n ms cb kw :: log st1).
 
+Definition do_add (ms n0 cb : Z) (kw : kwargs) (st : state) : state :=
+  if usable st n0 then add_named ms (add_ret n0 st) cb kw st else st.
+
 Definition skip_id (st : state) : state := mkS (now st) (next st + 1) (dict st) (timers st) (log st).
 
 Definition do_add_if (ms n0 cb : Z) (kw : kwargs) (st : state) : state :=
-  if (0 <=? n0) && check st n0 then skip_id st else do_add ms n0 cb kw st.
+  if negb (usable st n0) then st
+  else if negb (is_anon n0) && check st n0 then skip_id st else do_add ms n0 cb kw st.
 
 Definition do_reset (ms n0 cb : Z) (kw : kwargs) (st : state) : state :=
-  do_add ms n0 cb kw (if (0 <=? n0) && check st n0 then do_remove n0 st else st).
+  if negb (usable st n0) then st
+  else do_add ms n0 cb kw (if negb (is_anon n0) && check st n0 then do_remove n0 st else st).
 
 (* clear(): for name in list(keys): unschedule(delays[name][0]); remove(name) ; delays = {} *)
 Definition clear_one (st : state) (n : Z) : state :=
